@@ -633,7 +633,7 @@ func parseExclude(args []string) map[string]bool {
 
 func runChild(c *Ctx) {
 	go func() { // watchdog against a native loop that the step budget cannot interrupt
-		time.Sleep(240 * time.Second)
+		time.Sleep(1200 * time.Second)
 		fmt.Fprintln(os.Stderr, "c19child: watchdog timeout")
 		os.Exit(3)
 	}()
